@@ -6,6 +6,8 @@ import (
 	"context"
 	"fmt"
 	"os"
+	"path/filepath"
+	"sort"
 	"strings"
 	"time"
 
@@ -31,6 +33,10 @@ type C07Plan struct {
 	// Trickle: small writes issued after the faults stopped (they make the
 	// WAL writer rotate when MaxAge is short, as continued traffic would).
 	Trickle []WOp `json:"trickle"`
+	// Flapping storage during the fault phase: every storage write fails with
+	// probability FlapPct (decided by write index and FlapSalt).
+	FlapPct  int   `json:"flap_pct,omitempty"`
+	FlapSalt int64 `json:"flap_salt,omitempty"`
 }
 
 func genC07(r *simrt.Rand, tier string) any {
@@ -50,11 +56,44 @@ func genC07(r *simrt.Rand, tier string) any {
 	meass := []string{"cpu", "mem"}[:1+r.Intn(2)]
 	nw := 1 + r.Intn(3)
 	slow := r.Chance(35)
+	// steady: a long-lived node under continuous light traffic (a client that
+	// reports every few seconds), a WAL that rotates on almost every write and
+	// maintenance ticks every 1-3 s, so that purge, flush-failure replay,
+	// rotation and writes overlap again and again within one run. Most requests
+	// are placed a few scheduling steps around a maintenance tick.
+	steady := r.Chance(45)
+	if steady {
+		k.WAL = true
+		k.WALRecoveryIntS = 1 + r.Intn(3)
+		k.MaxBufferAgeMS = []int{50, 500}[r.Intn(2)]
+		k.StorageLatencyU = []int{0, 500, 5000}[r.Intn(3)]
+		k.FlushQueueSize = 2 + r.Intn(6)
+		nw = 1 + r.Intn(2)
+		slow = false
+	}
 	for w := 0; w < nw; w++ {
 		var ops []WOp
 		n := 2 + r.Intn(10)
+		if steady {
+			n = 6 + r.Intn(10)
+		}
 		for i := 0; i < n; i++ {
 			op := WOp{B: g.genBatch([]string{"col", "mp", "lp"}, dbs, meass, 6, false)}
+			if steady {
+				op.B = g.genBatch([]string{"col", "mp", "lp"}, dbs, meass, 3, false)
+				if r.Chance(75) {
+					// a request needs some 10-30 scheduling steps from wake-up to its
+					// WAL entry being written: mostly leads of that order, some wider
+					op.Lead = 1 + r.Intn(14)
+					if r.Chance(15) {
+						op.Lead = 1 + r.Intn(40)
+					}
+				} else {
+					op.SleepUs = int64(r.Intn(400000))
+				}
+				ops = append(ops, op)
+				continue
+			}
 			if r.Chance(40) {
 				op.SleepUs = int64(r.Intn(30000))
 			}
@@ -85,6 +124,27 @@ func genC07(r *simrt.Rand, tier string) any {
 	}
 	p.FinalRestart = r.Chance(50)
 	k.WALMaxAgeS = []int{1, 2, 3600}[r.Intn(3)]
+	if steady {
+		k.WALMaxAgeS = 1 + r.Intn(5)/4
+		p.Outages, p.FailWrites, p.ShutdownAtMS = nil, nil, 0
+		f := r.Intn(10)
+		if f < 7 { // flapping storage
+			p.FlapPct = []int{15, 30, 50}[r.Intn(3)]
+			p.FlapSalt = int64(r.Intn(1 << 20))
+		}
+		if f >= 5 { // an outage of seconds somewhere in the life of the node
+			from := r.Intn(6000)
+			p.Outages = []Outage{{FromMS: from, ToMS: from + 500 + r.Intn(12000)}}
+		}
+		if r.Chance(20) {
+			p.ShutdownAtMS = 1 + r.Intn(10000)
+		}
+	}
+	if !steady && r.Chance(15) {
+		// transient single-write failures on top of whatever else happens
+		p.FlapPct = []int{10, 30}[r.Intn(2)]
+		p.FlapSalt = int64(r.Intn(1 << 20))
+	}
 	if r.Chance(70) {
 		for i := 0; i < 2+r.Intn(4); i++ {
 			p.Trickle = append(p.Trickle, WOp{B: g.genBatch([]string{"col", "mp"}, dbs, meass, 2, false)})
@@ -106,9 +166,12 @@ func runC07(planAny any, cfg simrt.Config) *simkit.Outcome {
 		simrt.SetPathRoot(root)
 		n = newNode("n1", root, p.Knobs)
 		walMon = n.watchWALDeletes()
+		walMon.ghostDir = filepath.Join(root, "ghost")
+		os.MkdirAll(walMon.ghostDir, 0o755)
 		outageEnd := int64(0)
 		applyFaults := func() {
 			n.fb.failFrom, n.fb.failUntil = 0, 0
+			n.fb.flapPct, n.fb.flapSalt = p.FlapPct, p.FlapSalt+int64(n.boots)*7919
 			if len(p.Outages) > 0 {
 				// one window at a time is enough: use the hull of the listed windows
 				n.fb.failFrom = int64(p.Outages[0].FromMS) * 1e6
@@ -147,6 +210,7 @@ func runC07(planAny any, cfg simrt.Config) *simkit.Outcome {
 		}) {
 			return
 		}
+		bootDone := simrt.SimNow()
 		stop := false
 		pos := make([]int, len(p.Writers))
 		runWriters := func() {
@@ -159,6 +223,25 @@ func runC07(planAny any, cfg simrt.Config) *simkit.Outcome {
 						i := pos[wi]
 						if ops[i].SleepUs > 0 {
 							simrt.Sleep(time.Duration(ops[i].SleepUs) * time.Microsecond)
+							if stop {
+								return
+							}
+						}
+						if ops[i].Lead > 0 && p.Knobs.WAL {
+							// wake up Lead step lengths before the next maintenance tick: ticks
+							// are periodic (interval from the running configuration), the last
+							// one was seen listing the WAL directory at lastGlobNS
+							interval := int64(n.cfg.WAL.RecoveryIntervalSeconds) * int64(time.Second)
+							lead := int64(ops[i].Lead-1) * (cfg.StepMaxNs/2 + 1)
+							base, now := walMon.lastGlobNS, simrt.SimNow()
+							if base == 0 {
+								base = bootDone
+							}
+							d := (base - lead - now) % interval
+							if d <= 0 {
+								d += interval
+							}
+							simrt.Sleep(time.Duration(d))
 							if stop {
 								return
 							}
@@ -182,16 +265,18 @@ func runC07(planAny any, cfg simrt.Config) *simkit.Outcome {
 		runWriters()
 		if stop {
 			// graceful shutdown mid-stream, then restart and finish the workload
-			n.onNode("shutdown", func() { n.coord.Shutdown() })
+			n.onNode("shutdown", func() { n.shutdown() })
 			collect()
 			simrt.Event("RESTART")
 			stop = false
+			walMon.lastGlobNS = 0 // the new process has its own maintenance ticker
 			n.onNode("boot2", func() {
 				if err := n.boot(); err != nil {
 					panic(err)
 				}
 				applyFaults()
 			})
+			bootDone = simrt.SimNow()
 			runWriters()
 		}
 		// ---- faults stop here ----
@@ -201,6 +286,7 @@ func runC07(planAny any, cfg simrt.Config) *simkit.Outcome {
 		}
 		n.fb.failFrom, n.fb.failUntil = 0, 0
 		n.fb.failIdx = map[int]bool{}
+		n.fb.flapPct = 0
 		simrt.Event("FAULTS-STOP")
 		safeAge := time.Duration(p.Knobs.MaxBufferAgeMS) * time.Millisecond * 3
 		if safeAge < 30*time.Second {
@@ -220,7 +306,7 @@ func runC07(planAny any, cfg simrt.Config) *simkit.Outcome {
 		simrt.Sleep(budget)
 		n.onNode("final", func() {
 			n.buf.FlushAll(context.Background())
-			n.coord.Shutdown()
+			n.shutdown()
 		})
 		collect()
 		if p.FinalRestart {
@@ -230,7 +316,7 @@ func runC07(planAny any, cfg simrt.Config) *simkit.Outcome {
 					panic(err)
 				}
 				n.buf.FlushAll(context.Background())
-				n.coord.Shutdown()
+				n.shutdown()
 			})
 		}
 	})
@@ -248,7 +334,38 @@ func runC07(planAny any, cfg simrt.Config) *simkit.Outcome {
 	if walMon != nil {
 		out.Stats["probe.recovery_deletes_checked"] += int64(walMon.Checked)
 		if walMon.Early > 0 {
+			out.Stats["note.runs_recovery_delete_early"]++
 			out.Violate("C07.wal-file-removed-by-recovery-before-its-rows-were-stored", "%s", walMon.EarlyMsg)
+		}
+	}
+	if walMon != nil && p.Knobs.WAL {
+		// acknowledged rows that are missing at the end AND whose WAL entry went
+		// into a file the periodic maintenance purge had already unlinked (the
+		// writer kept appending to the dead inode): no retry and no replay could
+		// ever bring them back. A loss with its own cause gets its own rule id.
+		ghost := walMon.appendedAfterUnlink()
+		out.Stats["probe.wal_rows_appended_to_purged_file"] += int64(len(ghost))
+		if len(ghost) > 0 {
+			out.Stats["probe.runs_with_wal_rows_appended_to_purged_file"]++
+			stored := n.parquetRids()
+			var lost []int64
+			for _, a := range acks {
+				if !a.acked {
+					continue
+				}
+				for _, id := range a.b.IDs {
+					if _, g := ghost[id]; g && !stored[id] {
+						lost = append(lost, id)
+					}
+				}
+			}
+			sort.Slice(lost, func(i, j int) bool { return lost[i] < lost[j] })
+			if len(lost) > 0 {
+				out.Stats["note.runs_lost_rows_appended_to_purged_file"]++
+				out.Violate("C07.lost-row.wal-on.entry-appended-to-active-wal-file-unlinked-by-maintenance-purge",
+					"%d acknowledged rows are not stored after storage recovered and their WAL entries are in no WAL file: the periodic purge unlinked %s while the writer was still appending to it (first rid %d); %d rows in all were appended to purged files in this run",
+					len(lost), ghost[lost[0]], lost[0], len(ghost))
+			}
 		}
 	}
 	tmp := &simkit.Outcome{}
@@ -333,6 +450,21 @@ func shrinkC07(planAny any) []any {
 		q.FailWrites = append(q.FailWrites[:i], q.FailWrites[i+1:]...)
 		out = append(out, q)
 	}
+	if p.FlapPct > 0 {
+		q := cp()
+		q.FlapPct = 0
+		out = append(out, q)
+	}
+	if len(p.Outages) > 0 && p.FlapPct > 0 {
+		q := cp()
+		q.Outages = nil
+		out = append(out, q)
+	}
+	if len(p.Trickle) > 0 {
+		q := cp()
+		q.Trickle = nil
+		out = append(out, q)
+	}
 	for i := range p.Writers {
 		for j := range p.Writers[i] {
 			b := p.Writers[i][j].B
@@ -368,5 +500,5 @@ func descC07(planAny any) any {
 		}
 		ws = append(ws, strings.Join(s, " "))
 	}
-	return map[string]any{"knobs": p.Knobs, "writers": ws, "outages": p.Outages, "fail_writes": p.FailWrites, "shutdown_at_ms": p.ShutdownAtMS, "final_restart": p.FinalRestart}
+	return map[string]any{"knobs": p.Knobs, "writers": ws, "outages": p.Outages, "fail_writes": p.FailWrites, "flap_pct": p.FlapPct, "shutdown_at_ms": p.ShutdownAtMS, "final_restart": p.FinalRestart}
 }
